@@ -191,6 +191,9 @@ func c02Eval(c *Ctx, cs Case) {
 							if strings.HasPrefix(class, "oid-swap") && !c.Thorough && k%3 != 0 && !strings.HasSuffix(class, "sha384") {
 								return
 							}
+							if strings.HasPrefix(class, "forge-carrie") && !c.Thorough { // section 6 runs the carriers on every image
+								return
+							}
 							c02Pair(c, cs, withTable(m, winCert(b)), right, "digest-rewrite+"+class, "right")
 						})
 					}
@@ -207,6 +210,22 @@ func c02Eval(c *Ctx, cs Case) {
 			if c.Thorough || nf%5 == 0 {
 				c02Pair(c, cs, withTable(signed, winCert(b)), right, "blob-"+class, "right")
 			}
+			return
+		}
+		if strings.HasPrefix(class, "forge-carrie") && !c.Thorough {
+			// a passenger blob in a re-signed / in the genuine signature of the UNCHANGED image: under the signer's
+			// certificate, a sample (section 6 runs every position on a tampered image, C04 on the blobs themselves)
+			nf++
+			if nf%4 == 0 {
+				c02Pair(c, cs, withTable(signed, winCert(b)), right, "blob-"+class, "right")
+			}
+			return
+		}
+		if class == "forge-resigned-by-other" {
+			// the stranger's key really signs here (a genuine signature of the stranger over this image's digest):
+			// asked under the certificates whose keys did not
+			c02Pair(c, cs, withTable(signed, winCert(b)), right, "blob-"+class, "right")
+			c02Pair(c, cs, withTable(signed, winCert(b)), twin, "blob-"+class, "twin")
 			return
 		}
 		all(withTable(signed, winCert(b)), "blob-"+class)
@@ -230,6 +249,20 @@ func c02Eval(c *Ctx, cs Case) {
 				if _, sigF, err := signImage(c, tb, 3); err == nil {
 					all(withTable(tb, append(winCert(sig), winCert(sigF)...)), "tampered+foreign-resign")
 					all(withTable(tb, append(winCert(sigF), winCert(sig)...)), "tampered+foreign-resign")
+					// ... and as ONE table entry: the foreign key's signature over the tampered bytes, with the
+					// genuine signature over the original bytes travelling inside it, in every place of a blob
+					// that can hold a blob (unsigned attributes, certificates, CRLs, content, further signer
+					// entries, trailing fields). A signature of the right key over another image is a transplant
+					// wherever it sits.
+					p7Carriers(sigF, sig, func(pos string, b []byte) {
+						all(withTable(tb, winCert(b)), "tampered+foreign-resign+carrier/"+pos)
+					})
+					// the reverse: the genuine signature (over the original bytes) carrying the foreign one
+					p7Carriers(sig, sigF, func(pos string, b []byte) {
+						if c.Thorough || c.Rng.Intn(4) == 0 {
+							c02Pair(c, cs, withTable(tb, winCert(b)), right, "tampered+genuine-carrying-foreign/"+pos, "right")
+						}
+					})
 				}
 			}
 		}
@@ -361,7 +394,7 @@ func c02Gen(c *Ctx) {
 
 func init() {
 	register("C02", &PropDef{
-		Rule:   "images from the C01 generator and two repository binaries, signed by the library; for each, Verify under the signer's certificate, a twin certificate (same issuer and serial, another key) and a stranger, on: the signed image, the unsigned image, ~25 stratified single-byte changes (+8 inside the certificate table), a cross-image transplant of the certificate table, a covered-byte change with the embedded digest overwritten by the new image digest (alone, and combined with each targeted blob edit and OID replacement), targeted edits inside the blob (content, content type, certificates, signer identity, message digest, dropped attributes), a sample of generic blob mutations, two-signature tables in both orders, and a tampered image carrying the original signature plus a foreign key's signature over the tampered bytes (both orders). Every pair is compared with the Lean Impl verifier (real SHA-256/RSA) and judged by Spec.authenticodeVerify. Every case is non-trivial; distinct = distinct (image bytes, certificate).",
+		Rule:   "images from the C01 generator and two repository binaries, signed by the library; for each, Verify under the signer's certificate, a twin certificate (same issuer and serial, another key) and a stranger, on: the signed image, the unsigned image, ~25 stratified single-byte changes (+8 inside the certificate table), a cross-image transplant of the certificate table, a covered-byte change with the embedded digest overwritten by the new image digest (alone, and combined with each targeted blob edit and OID replacement), targeted edits inside the blob (content, content type, certificates, signer identity, message digest, dropped attributes), a sample of generic blob mutations, two-signature tables in both orders, a tampered image carrying the original signature plus a foreign key's signature over the tampered bytes (both orders), and the same tampered image with ONE table entry: the foreign key's signature with the genuine signature over the original bytes placed inside it, in every place of a blob that can hold another blob (unsigned attributes of a signer entry under the SpcNestedSignature / MS RFC 3161 timestamp / timeStampToken / an unknown attribute type, one and two values; a counter-signature attribute holding the genuine signer entry; an extra certificate; the CRL field; a further content element; the genuine signer entries appended / prepended; trailing fields of SignedData and of the content info; a second SignedData), plus a sample of the reverse nesting. The targeted blob edits include the two-signer-entry combinations of C04 (identity x signature, and identity x attributes re-bound to replaced content) and a blob consistently re-signed by another key. Every pair is compared with the Lean Impl verifier (real SHA-256/RSA) and judged by Spec.authenticodeVerify. Every case is non-trivial; distinct = distinct (image bytes, certificate).",
 		Assume: []string{"RSA/SHA-256 on the model side are the executable Lean implementations", "x509.ParseCertificates is opaque (its verdicts are handed to the model)"},
 		Eval:   c02Eval, Gen: c02Gen,
 	})
